@@ -1,6 +1,6 @@
 (* C03 - all identifiers are expressed in one global namespace table *)
-From Coq Require Import String Ascii List Bool Arith NArith ZArith.
-Require Import PyStr PyInt Sexp Xml M_C09 M_C08 Ns Table M_Parse T_Parse.
+From Coq Require Import String Ascii List Bool Arith NArith ZArith Permutation.
+Require Import PyStr PyInt Sexp Xml M_C09 M_C08 Ns Table M_Parse T_Parse T_NsDict.
 Import ListNotations.
 Open Scope char_scope.
 
@@ -42,6 +42,30 @@ Theorem C03_grows : forall E,
   (exists s, ns' = ns ++ s) /\ (NoDup ns -> NoDup ns') /\ (docs <> [] -> In UA_URI ns') /\ length fos = length docs.
 Proof. exact parse_seq_ns. Qed.
 
+(* ---- the caller's table given as a dictionary index -> URI (UAGraph.from_path / from_file_list, through UAGraph._get_namespace_list) ---- *)
+
+(* the list handed to the parser has one place per index up to the largest key *)
+Theorem C03_dict_length : forall d, length (namespace_list_of_dict d) = S (dict_max d).
+Proof. exact dict_list_length. Qed.
+
+(* every entry stands at its own index, whatever the order of the entries *)
+Theorem C03_dict_entry : forall d k u, NoDup (map fst d) -> In (k, u) d -> nth_error (namespace_list_of_dict d) k = Some u.
+Proof. exact dict_list_entry. Qed.
+
+(* an unassigned index below the largest key holds the place holder the code writes there ("None") *)
+Theorem C03_dict_gap : forall d k, k <= dict_max d -> ~ In k (map fst d) -> nth_error (namespace_list_of_dict d) k = Some (lit "None").
+Proof. exact dict_list_gap. Qed.
+
+(* the list is a function of the table's CONTENT: the order in which its entries were inserted is irrelevant *)
+Theorem C03_dict_insertion_order : forall d d', NoDup (map fst d) -> Permutation d d' ->
+  namespace_list_of_dict d = namespace_list_of_dict d'.
+Proof. exact dict_list_order_irrelevant. Qed.
+
+(* composed with the parser: every entry of the caller's table keeps its index in the namespace list returned with the parse output *)
+Theorem C03_dict_entries_kept : forall E d docs p k u, NoDup (map fst d) -> In (k, u) d ->
+  parse_files E (namespace_list_of_dict d) docs = Ok p -> nth_error (p_namespaces p) k = Some u.
+Proof. exact dict_entries_kept. Qed.
+
 Print Assumptions C03_caller_prefix.
 Print Assumptions C03_no_duplicates.
 Print Assumptions C03_index_zero.
@@ -49,3 +73,8 @@ Print Assumptions C03_index_zero_caller.
 Print Assumptions C03_identifier_index.
 Print Assumptions C03_map_keys.
 Print Assumptions C03_grows.
+Print Assumptions C03_dict_length.
+Print Assumptions C03_dict_entry.
+Print Assumptions C03_dict_gap.
+Print Assumptions C03_dict_insertion_order.
+Print Assumptions C03_dict_entries_kept.
